@@ -166,6 +166,9 @@ def run(tier, replay=None):
             if part:
                 jobs.append((stream, nf, part))
 
+    # a frame in the middle of being written when its stream ends for the server (superseded by a newer stream / session deleted)
+    jobs.append(("getends", 1, [{"id": "getends_newer", "steps": ["newer"]}, {"id": "getends_delete", "steps": ["delete"]}]))
+
     def one(job):
         stream, nf, part = job
         inp = {"stream": stream, "nframes": nf, "gated": True, "schedules": part}
@@ -195,6 +198,8 @@ def run(tier, replay=None):
         byte_oracle(run_, r, rp)
         # a schedule is non-trivial when the frames' writes really interleave in the plan
         steps = sched["steps"]
+        if stream == "getends":
+            run_.nontriv([stream, steps])
         if any(steps[i] != steps[i + 1] for i in range(len(steps) - 1)) and len(set(steps)) > 1:
             inter = any(steps[i] != steps[i + 1] and steps[i] in steps[i + 1:] for i in range(len(steps) - 1))
             if inter:
